@@ -10,7 +10,7 @@ INV_C17 = ['TypeOK', 'NeverFailsModuloF9', 'NoEmptyBatch', 'FairPass', 'MaxFirst
 
 # flags of CacheLin that are property failures, per property
 FLAGS = {
-  'C02': {'sizeexact', 'unsorted', 'notdrained'},
+  'C02': {'sizeexact', 'unsorted', 'notdrained', 'drainraised'},      # a drain that raises after popping loses its batch
   'C10': {'bound', 'sizeexact', 'f1', 'notdrained'},
   'C17': {'storeraised', 'drainraised', 'f9', 'emptybatch', 'maxfirst', 'fairpass', 'lag', 'chosestale', 'notdrained', 'f1'},
 }
